@@ -91,7 +91,8 @@ theorem sniLoop_encode (s : Loc) (es : List (Nat × Bytes)) (pre post S : Bytes)
   induction es generalizing pre with
   | nil =>
     unfold sniLoop
-    simp [encodeEntries, firstHost]
+    rw [dif_neg (by simp [encodeEntries])]
+    simp [firstHost]
   | cons e es ih =>
     obtain ⟨t, n⟩ := e
     have hlen : (encodeEntries ((t, n) :: es)).length = 3 + n.length + (encodeEntries es).length := by
@@ -102,7 +103,7 @@ theorem sniLoop_encode (s : Loc) (es : List (Nat × Bytes)) (pre post S : Bytes)
       rw [hS]; simp [encodeEntries, encodeEntry, u16]
     have hr1 : s.range pre.length (pre.length + 3) = .ok [t, n.length / 256, n.length % 256] := by
       rw [hr.range _ _ (by omega) (by omega), hS']
-      exact slice_mid' _ _ _ 3 rfl
+      exact congrArg Except.ok (slice_mid' pre [t, n.length / 256, n.length % 256] _ 3 rfl)
     unfold sniLoop
     rw [dif_pos (by omega), hr1]
     simp only [List.getD_cons_zero, List.getD_cons_succ, be16_u16]
@@ -122,5 +123,221 @@ theorem sniLoop_encode (s : Loc) (es : List (Nat × Bytes)) (pre post S : Bytes)
       simp only [ht, ne_eq, not_false_eq_true, if_true, firstHost, if_false]
       rw [e1, e2]
       exact ih (pre ++ encodeEntry (t, n)) (by rw [hS]; simp [encodeEntries, List.append_assoc])
+
+/-! ## `findSniExtension` on an encoded extension list -/
+
+theorem sniData_length (es : List (Nat × Bytes)) : (sniData es).length = 2 + (encodeEntries es).length := by
+  simp [sniData, u16]; omega
+
+theorem encodeExt_length (e : ExtItem) : (encodeExt e).length = 4 + e.data.length := by
+  simp [encodeExt, u16]; omega
+
+theorem encodeExts_eq_nil (l : List ExtItem) (h : (encodeExts l).length = 0) : l = [] := by
+  cases l with
+  | nil => rfl
+  | cons e es => simp [encodeExts, encodeExt_length] at h
+
+/-- The documented answer for an extension list. -/
+def specExts (exts : List ExtItem) : Except Err Bytes :=
+  match firstHostName exts with
+  | some n => .ok (trimDot n)
+  | none => .error .notFound
+
+theorem findSniFrom_encode (s : Loc) (exts : List ExtItem) (pre S : Bytes)
+    (hwf : ∀ e ∈ exts, ∀ t d, e = .other t d → t ≠ 0)
+    (hS : S = pre ++ encodeExts exts) (hr : Reads s S) (hl : s.len ≤ S.length + 1) :
+    findSniFrom s pre.length = specExts exts := by
+  induction exts generalizing pre with
+  | nil =>
+    have : S.length = pre.length := by rw [hS]; simp [encodeExts]
+    unfold findSniFrom
+    rw [dif_pos (by omega)]
+    rfl
+  | cons e rest ih =>
+    have hge := hr.len_ge
+    have hSlen : S.length = pre.length + (4 + e.data.length + (encodeExts rest).length) := by
+      rw [hS]; simp [encodeExts, encodeExt_length]
+    have hS' : S = pre ++ ([e.typ / 256, e.typ % 256, e.data.length / 256, e.data.length % 256]
+        ++ (e.data ++ encodeExts rest)) := by
+      rw [hS]; simp [encodeExts, encodeExt, u16]
+    have ihr := ih (pre ++ encodeExt e) (fun x hx => hwf x (List.mem_cons_of_mem _ hx))
+      (by rw [hS]; simp [encodeExts])
+    have enext : pre.length + 4 + e.data.length = (pre ++ encodeExt e).length := by
+      simp [encodeExt_length]; omega
+    by_cases hc : pre.length + 4 ≥ s.len
+    · -- an empty extension as the very last one
+      have h0 : e.data.length = 0 := by omega
+      have h1 : (encodeExts rest).length = 0 := by omega
+      have hrest := encodeExts_eq_nil rest h1
+      subst hrest
+      unfold findSniFrom
+      rw [dif_pos hc]
+      cases e with
+      | sni es => simp [ExtItem.data, sniData_length] at h0
+      | other t d => rfl
+    · have hr1 : s.range pre.length (pre.length + 4)
+          = .ok [e.typ / 256, e.typ % 256, e.data.length / 256, e.data.length % 256] := by
+        rw [hr.range _ _ (by omega) (by omega), hS']
+        exact congrArg Except.ok (slice_mid' pre _ _ 4 rfl)
+      unfold findSniFrom
+      rw [dif_neg hc, hr1]
+      simp only [List.getD_cons_zero, List.getD_cons_succ, be16_u16]
+      rw [dif_neg (by omega)]
+      cases e with
+      | other t d =>
+        have ht : t ≠ 0 := hwf _ (List.mem_cons_self) t d rfl
+        simp only [ExtItem.typ, ht, if_false]
+        rw [show pre.length + 4 + (ExtItem.other t d).data.length = (pre ++ encodeExt (.other t d)).length from enext]
+        rw [ihr]
+        simp [specExts, firstHostName]
+      | sni es =>
+        have hd : (ExtItem.sni es).data.length = 2 + (encodeEntries es).length := sniData_length es
+        have hr2 : s.range (pre.length + 4) (pre.length + 6)
+            = .ok [(encodeEntries es).length / 256, (encodeEntries es).length % 256] := by
+          rw [hr.range _ _ (by omega) (by omega), hS]
+          have := slice_mid' (pre ++ [0 / 256, 0 % 256, (sniData es).length / 256, (sniData es).length % 256])
+            [(encodeEntries es).length / 256, (encodeEntries es).length % 256]
+            (encodeEntries es ++ encodeExts rest) 2 rfl
+          simp only [List.length_append, List.length_cons, List.length_nil] at this
+          simp only [encodeExts, encodeExt, ExtItem.typ, ExtItem.data, sniData, u16, List.append_assoc,
+            List.cons_append, List.nil_append]
+          simp only [List.append_assoc, List.cons_append, List.nil_append, sniData, u16] at this
+          exact congrArg Except.ok this
+        have hloop := sniLoop_encode s es
+          (pre ++ [0 / 256, 0 % 256, (sniData es).length / 256, (sniData es).length % 256,
+            (encodeEntries es).length / 256, (encodeEntries es).length % 256])
+          (encodeExts rest) S
+          (by rw [hS]; simp [encodeExts, encodeExt, ExtItem.typ, ExtItem.data, sniData, u16]) hr
+        simp only [List.length_append, List.length_cons, List.length_nil] at hloop
+        simp only [ExtItem.typ, if_true]
+        rw [if_neg (by omega), hr2]
+        simp only [List.getD_cons_zero, List.getD_cons_succ, be16_u16]
+        rw [if_neg (by omega)]
+        rw [show pre.length + 4 + (ExtItem.sni es).data.length = pre.length + (0 + 1 + 1 + 1 + 1 + 1 + 1) + (encodeEntries es).length by omega,
+          show pre.length + 6 = pre.length + (0 + 1 + 1 + 1 + 1 + 1 + 1) by omega, hloop]
+        cases hf : firstHost es with
+        | some n => simp [specExts, firstHostName, hf]
+        | none =>
+          simp only [Option.map_none]
+          rw [show pre.length + (0 + 1 + 1 + 1 + 1 + 1 + 1) + (encodeEntries es).length
+            = (pre ++ encodeExt (.sni es)).length by rw [← enext]; omega]
+          rw [ihr]
+          simp [specExts, firstHostName, hf]
+
+/-! ## `extractSniFromTls` on an encoded ClientHello -/
+
+theorem getD_append_mid (a : Bytes) (x : Nat) (b : Bytes) (n : Nat) (h : n = a.length) :
+    (a ++ x :: b).getD n 0 = x := by
+  subst h; simp [List.getD]
+
+/-- What `Slice` must give for the generic round trip. -/
+def SliceOk (s : Loc) (S : Bytes) : Prop :=
+  ∀ a b, a ≤ b → b ≤ S.length →
+    ∃ s', s.sliceLoc a b = .ok s' ∧ Reads s' (slice S a b) ∧ s'.len ≤ (b - a) + 1
+
+theorem slice_length (S : Bytes) (a b : Nat) (h : b ≤ S.length) : (slice S a b).length = b - a := by
+  unfold slice; simp; omega
+
+theorem sliceOk_builtin (S : Bytes) : SliceOk (.builtin S) S := by
+  intro a b h1 h2
+  refine ⟨.builtin (slice S a b), by simp [Loc.sliceLoc, h1, h2], reads_builtin _, ?_⟩
+  simp [Loc.len, slice_length S a b h2]
+
+theorem extractSni_encode (s : Loc) (ch : ClientHello) (hwf : ch.WF)
+    (hr : Reads s (handshake ch)) (hlen : s.len = (handshake ch).length)
+    (hsl : SliceOk s (handshake ch)) :
+    extractSni s = specResult ch := by
+  obtain ⟨hm1, hm3, hrnd, hext⟩ := hwf
+  -- name the pieces
+  generalize hS : handshake ch = S at *
+  let n := (helloBody ch).length
+  let A : Bytes := [1, n / 65536, n / 256 % 256, n % 256, 3, ch.minor] ++ ch.random
+  have hA : A.length = 38 := by simp [A, hrnd]
+  let sl := ch.sid.length
+  let csl := ch.suites.length
+  let cml := ch.comp.length
+  have hS1 : S = [] ++ ([1, n / 65536, n / 256 % 256, n % 256, 3, ch.minor] ++
+      (ch.random ++ ([sl] ++ ch.sid) ++ (u16 csl ++ ch.suites) ++ ([cml] ++ ch.comp) ++ extBlock ch.exts)) := by
+    rw [← hS]; simp [handshake, helloBody, n, sl, csl, cml]
+  have hS2 : S = A ++ sl :: (ch.sid ++ (u16 csl ++ ch.suites) ++ ([cml] ++ ch.comp) ++ extBlock ch.exts) := by
+    rw [← hS]; simp [handshake, helloBody, A, n, sl, csl, cml]
+  have hS3 : S = (A ++ sl :: ch.sid) ++ ([csl / 256, csl % 256] ++ (ch.suites ++ ([cml] ++ ch.comp) ++ extBlock ch.exts)) := by
+    rw [hS2]; simp [u16]
+  have hS4 : S = (A ++ sl :: ch.sid ++ [csl / 256, csl % 256] ++ ch.suites) ++ cml :: (ch.comp ++ extBlock ch.exts) := by
+    rw [hS2]; simp [u16]
+  have hL0 : S.length = 42 + sl + csl + cml + (extBlock ch.exts).length := by
+    rw [hS2]; simp [hA, u16, sl, csl, cml]; omega
+  have r1 : s.range 0 6 = .ok [1, n / 65536, n / 256 % 256, n % 256, 3, ch.minor] := by
+    rw [hr.range _ _ (by omega) (by omega)]
+    have := slice_mid' [] [1, n / 65536, n / 256 % 256, n % 256, 3, ch.minor]
+      (ch.random ++ ([sl] ++ ch.sid) ++ (u16 csl ++ ch.suites) ++ ([cml] ++ ch.comp) ++ extBlock ch.exts) 6 rfl
+    rw [← hS1] at this
+    exact congrArg Except.ok this
+  have r2 : s.at 38 = .ok sl := by
+    rw [hr.at_ _ (by omega)]
+    exact congrArg Except.ok (by rw [hS2]; exact getD_append_mid A sl _ 38 hA.symm)
+  have r3 : s.range (39 + sl) (41 + sl) = .ok [csl / 256, csl % 256] := by
+    rw [hr.range _ _ (by omega) (by omega)]
+    have := slice_mid' (A ++ sl :: ch.sid) [csl / 256, csl % 256]
+      (ch.suites ++ ([cml] ++ ch.comp) ++ extBlock ch.exts) 2 rfl
+    rw [← hS3] at this
+    have e : (A ++ sl :: ch.sid).length = 39 + sl := by simp [hA, sl]; omega
+    rw [e] at this
+    rw [show 41 + sl = 39 + sl + 2 by omega]
+    exact congrArg Except.ok this
+  have r4 : s.at (41 + sl + csl) = .ok cml := by
+    rw [hr.at_ _ (by omega)]
+    refine congrArg Except.ok ?_
+    rw [hS4]
+    exact getD_append_mid _ cml _ _ (by simp [hA, sl, csl]; omega)
+  unfold extractSni
+  rw [if_neg (by omega), r1]
+  simp only [List.getD_cons_zero, List.getD_cons_succ]
+  rw [if_neg (by simp), if_neg (by omega), r2]
+  simp only []
+  rw [if_neg (by omega), show 39 + sl + 2 - 2 = 39 + sl by omega, show 39 + sl + 2 = 41 + sl by omega, r3]
+  simp only [List.getD_cons_zero, List.getD_cons_succ, be16_u16]
+  rw [if_neg (by omega), show 41 + sl + csl + 1 - 1 = 41 + sl + csl by omega, r4]
+  simp only []
+  cases hx : ch.exts with
+  | none =>
+    have : (extBlock ch.exts).length = 0 := by simp [hx, extBlock]
+    rw [if_pos (by omega)]
+    simp [specResult, hx]
+  | some es =>
+    let E := (encodeExts es).length
+    have hEB : (extBlock ch.exts).length = 2 + E := by simp [hx, extBlock, u16, E]; omega
+    have hS5 : S = (A ++ sl :: ch.sid ++ [csl / 256, csl % 256] ++ ch.suites ++ cml :: ch.comp)
+        ++ ([E / 256, E % 256] ++ (encodeExts es ++ [])) := by
+      rw [hS2]; simp [u16, hx, extBlock, E]
+    have e5 : (A ++ sl :: ch.sid ++ [csl / 256, csl % 256] ++ ch.suites ++ cml :: ch.comp).length
+        = 42 + sl + csl + cml := by simp [hA, sl, csl, cml]; omega
+    have r5 : s.range (42 + sl + csl + cml) (44 + sl + csl + cml) = .ok [E / 256, E % 256] := by
+      rw [hr.range _ _ (by omega) (by omega)]
+      have := slice_mid' _ [E / 256, E % 256] (encodeExts es ++ []) 2 rfl
+      rw [← hS5, e5] at this
+      exact congrArg Except.ok this
+    rw [if_neg (by omega), show 41 + sl + csl + 1 + cml + 2 - 2 = 42 + sl + csl + cml by omega,
+      show 41 + sl + csl + 1 + cml + 2 = 44 + sl + csl + cml by omega, r5]
+    simp only [List.getD_cons_zero, List.getD_cons_succ, be16_u16]
+    rw [if_neg (by omega), show 44 + sl + csl + cml + E - E = 44 + sl + csl + cml by omega]
+    obtain ⟨s', hs', hrs', hls'⟩ := hsl (44 + sl + csl + cml) (44 + sl + csl + cml + E) (by omega) (by omega)
+    rw [hs']
+    simp only []
+    have hslice : slice S (44 + sl + csl + cml) (44 + sl + csl + cml + E) = encodeExts es := by
+      have := slice_mid' (A ++ sl :: ch.sid ++ [csl / 256, csl % 256] ++ ch.suites ++ cml :: ch.comp ++ [E / 256, E % 256])
+        (encodeExts es) [] E rfl
+      have e6 : (A ++ sl :: ch.sid ++ [csl / 256, csl % 256] ++ ch.suites ++ cml :: ch.comp ++ [E / 256, E % 256]).length
+          = 44 + sl + csl + cml := by simp [hA, sl, csl, cml]; omega
+      rw [e6] at this
+      rw [← this, hS5]
+      simp
+    rw [hslice] at hrs'
+    have := findSniFrom_encode s' es [] (encodeExts es) (fun e he t d hd => hext es hx e he t d hd)
+      (by simp) hrs' (by simp only [E] at hls'; omega)
+    simp only [List.length_nil] at this
+    unfold findSni
+    rw [this]
+    simp only [specResult, hx, specExts]
 
 end DaeVerif.C06
